@@ -3,6 +3,8 @@ package main
 import (
 	"fmt"
 	"go/ast"
+	"regexp"
+	"strings"
 )
 
 // Whole-body regeneration of the log client's methods (C12 deepening) and of the SignatureVerifier wrappers (C05): every
@@ -23,12 +25,12 @@ func init() {
 			{name, func() string {
 				a := mk()
 				a.Ret, a.Status = "statusstate", val
-				return handlerKernel(rel, fn, lean, params, "Nat × Bool", "", "(0, false)", a)()
+				return hkc(rel, fn, lean, params, "Nat × Bool", "", "(0, false)", a)()
 			}},
 			{name + ".err", func() string {
 				b := mk()
 				b.Ret = "errkind"
-				return handlerKernel(rel, fn, lean+"Err", params, "ErrKind", "", "ErrKind.ok", b)()
+				return hkc(rel, fn, lean+"Err", params, "ErrKind", "", "ErrKind.ok", b)()
 			}},
 		}
 	}
@@ -57,119 +59,74 @@ func init() {
 	us = append(us, unit{"LogClient.addChainWithRetry", func() string {
 		acA := acSpec()
 		acA.Ret, acA.Status, acA.StateVars = "statusstate", val, []string{"idIsKeyHash_"}
-		return handlerKernel(lc, "LogClient.addChainWithRetry", "clientAddChain", acParams, "Nat × Bool × Bool",
+		return hkc(lc, "LogClient.addChainWithRetry", "clientAddChain", acParams, "Nat × Bool × Bool",
 			"let idIsKeyHash_ := false\n  ", "(0, false, idIsKeyHash_)", acA)()
 	}})
 	us = append(us, unit{"LogClient.addChainWithRetry.err", func() string {
 		acB := acSpec()
 		acB.Ret = "errkind"
-		return handlerKernel(lc, "LogClient.addChainWithRetry", "clientAddChainErr", acParams, "ErrKind", "let idIsKeyHash_ := false\n  ", "ErrKind.ok", acB)()
+		return hkc(lc, "LogClient.addChainWithRetry", "clientAddChainErr", acParams, "ErrKind", "let idIsKeyHash_ := false\n  ", "ErrKind.ok", acB)()
 	}})
 	// error-only methods: the Lean Bool "an error is returned"
-	us = append(us, unit{"LogClient.VerifySTHSignature", handlerKernel(lc, "LogClient.VerifySTHSignature", "clientVerifySTH", "(noVerifier verifyFails : Bool)", "Bool", "", "false",
+	us = append(us, unit{"LogClient.VerifySTHSignature", hkc(lc, "LogClient.VerifySTHSignature", "clientVerifySTH", "(noVerifier verifyFails : Bool)", "Bool", "", "false",
 		Spec{Kind: "u64", Lazy: true, Ignore: ign, Repl: map[string]string{"c.Verifier == nil": "noVerifier", "c.Verifier != nil": "(!noVerifier)", "nil": "false", "c.Verifier.VerifySTHSignature(sth)": "verifyFails"}})})
-	us = append(us, unit{"LogClient.VerifySCTSignature", handlerKernel(lc, "LogClient.VerifySCTSignature", "clientVerifySCT", "(noVerifier leafFails verifyFails : Bool)", "Bool", "", "false",
+	us = append(us, unit{"LogClient.VerifySCTSignature", hkc(lc, "LogClient.VerifySCTSignature", "clientVerifySCT", "(noVerifier leafFails verifyFails : Bool)", "Bool", "", "false",
 		Spec{Kind: "u64", Lazy: true, Ignore: ign, IgnoreLHS: []string{"leaf.TimestampedEntry.Extensions"},
 			ErrCalls: map[string]string{"ct.MerkleTreeLeafFromRawChain": "leafFails"},
 			Repl: map[string]string{"c.Verifier == nil": "noVerifier", "c.Verifier != nil": "(!noVerifier)", "nil": "false", "c.Verifier.VerifySCTSignature(sct, entry)": "verifyFails",
 				`fmt.Errorf("failed to build MerkleTreeLeaf: %v", err)`: "true"}})})
 	for _, m := range [][2]string{{"GetSTHConsistency", "clientGetSTHConsistency"}, {"GetProofByHash", "clientGetProofByHash"}, {"GetEntryAndProof", "clientGetEntryAndProof"}} {
 		us = append(us, both("LogClient."+m[0], lc, "LogClient."+m[0], m[1], "(getFails : Bool)",
-			Spec{Kind: "u64", Lazy: true, Ignore: ign, InitCondByCall: map[string]string{".GetAndParse": "getFails"}})...)
+			Spec{Kind: "u64", Lazy: true, Ignore: ign, InitCondByCall: map[string]string{".GetAndParse": "getFails"}, ErrCalls: map[string]string{"c.GetAndParse": "getFails"}})...)
 	}
 	us = append(us, both("LogClient.getRawEntries", ge, "LogClient.getRawEntries", "clientGetRawEntries", "(endNegative endBeforeStart getFails : Bool)",
 		Spec{Kind: "u64", Lazy: true, Ignore: ign, ErrCalls: map[string]string{"c.GetAndParse": "getFails"},
 			Repl: map[string]string{"end < 0": "endNegative", "end < start": "endBeforeStart"}})...)
 	// the two methods with a loop: what one element does (the prefix "GetAndParse failed → its error" is the same statement as in the
 	// other GET methods; the composition prefix → loop → hand back is `Gen.clientVerifiesBeforeReturn`-style order, checked by k_client.go)
-	us = append(us, unit{"LogClient.GetAcceptedRoots.elem", loopVerdictKernel(lc, "LogClient.GetAcceptedRoots", "resp.Certificates", "cert64", "clientRootsElemFails", "(b64Fails : Bool)", "Bool", "false",
+	us = append(us, unit{"LogClient.GetAcceptedRoots.elem", lvc(lc, "LogClient.GetAcceptedRoots", "resp.Certificates", "cert64", "clientRootsElemFails", "(b64Fails : Bool)", "Bool", "false",
 		Spec{Kind: "u64", Lazy: true, Ret: "verdict", ReturnVal: "true", Ignore: ign, IgnoreLHS: []string{"roots"}, ErrCalls: map[string]string{"base64.StdEncoding.DecodeString": "b64Fails"}})})
-	us = append(us, unit{"LogClient.GetEntries.elem", loopVerdictKernel(ge, "LogClient.GetEntries", "resp.Entries", "entry", "clientEntriesElemFails", "(fatal : Bool)", "Bool", "false",
+	us = append(us, unit{"LogClient.GetEntries.elem", lvc(ge, "LogClient.GetEntries", "resp.Entries", "entry", "clientEntriesElemFails", "(fatal : Bool)", "Bool", "false",
 		Spec{Kind: "u64", Lazy: true, Ret: "verdict", ReturnVal: "true", Ignore: ign, IgnoreLHS: []string{"entries[i]", "index"}, Repl: map[string]string{"x509.IsFatal(err)": "fatal"}})})
 	us = append(us, both("JSONClient.GetAndParse", jc, "JSONClient.GetAndParse", "jsonGetAndParse",
 		"(ctxNil reqFails doFails closeFails readFails statusNot200 decodeFails : Bool)",
 		Spec{Kind: "u64", Lazy: true, Ignore: ign,
-			ErrCalls: map[string]string{"http.NewRequest": "reqFails", "ctxhttp.Do": "doFails", "io.ReadAll": "readFails"},
-			InitCond: map[string]string{"err := httpRsp.Body.Close() ; err != nil": "closeFails",
-				"err := json.NewDecoder(bytes.NewReader(body)).Decode(rsp) ; err != nil": "decodeFails"},
-			Repl: map[string]string{"ctx == nil": "ctxNil", "httpRsp.StatusCode != http.StatusOK": "statusNot200", "len(c.userAgent) != 0": "false", "len(c.authorization) != 0": "false"}})...)
+			ErrCalls:       map[string]string{"http.NewRequest": "reqFails", "ctxhttp.Do": "doFails", "io.ReadAll": "readFails"},
+			InitCondByCall: map[string]string{".Close": "closeFails", ".Decode": "decodeFails"},
+			Repl:           map[string]string{"ctx == nil": "ctxNil", "httpRsp.StatusCode != http.StatusOK": "statusNot200", "len(c.userAgent) != 0": "false", "len(c.authorization) != 0": "false"}})...)
 
 	// ---- C05: the SignatureVerifier wrappers, ctutil, and the whole body of tls.VerifySignature
 	sg := "signatures.go"
 	cu := "ctutil/ctutil.go"
 	tsig := "tls/signature.go"
 	var su []unit
-	su = append(su, unit{"SignatureVerifier.VerifySignature", handlerKernel(sg, "SignatureVerifier.VerifySignature", "svVerifySignature", "(verifyFails : Bool)", "Bool", "", "false",
-		Spec{Kind: "u64", Lazy: true, Repl: map[string]string{"tls.VerifySignature(s.PubKey, data, sig)": "verifyFails"}})})
-	su = append(su, unit{"SignatureVerifier.VerifySCTSignature", handlerKernel(sg, "SignatureVerifier.VerifySCTSignature", "svVerifySCT", "(serializeFails verifyFails : Bool)", "Bool", "", "false",
+	su = append(su, unit{"SignatureVerifier.VerifySignature", hkc(sg, "SignatureVerifier.VerifySignature", "svVerifySignature", "(verifyFails : Bool)", "Bool", "", "false",
+		Spec{Kind: "u64", Lazy: true, CallRepl: map[string]string{"tls.VerifySignature": "verifyFails"}})})
+	su = append(su, unit{"SignatureVerifier.VerifySCTSignature", hkc(sg, "SignatureVerifier.VerifySCTSignature", "svVerifySCT", "(serializeFails verifyFails : Bool)", "Bool", "", "false",
 		Spec{Kind: "u64", Lazy: true, ErrCalls: map[string]string{"SerializeSCTSignatureInput": "serializeFails"}, Bind: map[string]string{"SerializeSCTSignatureInput": "sctData"},
-			Repl: map[string]string{"err": "true", "s.VerifySignature(sctData, tls.DigitallySigned(sct.Signature))": "verifyFails"}})})
-	su = append(su, unit{"SignatureVerifier.VerifySTHSignature", handlerKernel(sg, "SignatureVerifier.VerifySTHSignature", "svVerifySTH", "(serializeFails verifyFails : Bool)", "Bool", "", "false",
+			Repl: map[string]string{"err": "true"}, CallRepl: map[string]string{"tls.VerifySignature": "verifyFails"}})})
+	su = append(su, unit{"SignatureVerifier.VerifySTHSignature", hkc(sg, "SignatureVerifier.VerifySTHSignature", "svVerifySTH", "(serializeFails verifyFails : Bool)", "Bool", "", "false",
 		Spec{Kind: "u64", Lazy: true, ErrCalls: map[string]string{"SerializeSTHSignatureInput": "serializeFails"}, Bind: map[string]string{"SerializeSTHSignatureInput": "sthData"},
-			Repl: map[string]string{"err": "true", "s.VerifySignature(sthData, tls.DigitallySigned(sth.TreeHeadSignature))": "verifyFails"}})})
-	su = append(su, unit{"ctutil.VerifySCT", handlerKernel(cu, "VerifySCT", "ctutilVerifySCT", "(newVerifierFails withVerifierFails : Bool)", "Bool", "", "false",
+			Repl: map[string]string{"err": "true"}, CallRepl: map[string]string{"tls.VerifySignature": "verifyFails"}})})
+	su = append(su, unit{"ctutil.VerifySCT", hkc(cu, "VerifySCT", "ctutilVerifySCT", "(newVerifierFails withVerifierFails : Bool)", "Bool", "", "false",
 		Spec{Kind: "u64", Lazy: true, ErrCalls: map[string]string{"ct.NewSignatureVerifier": "newVerifierFails"},
-			Repl: map[string]string{`fmt.Errorf("error creating signature verifier: %s", err)`: "true", "VerifySCTWithVerifier(s, chain, sct, embedded)": "withVerifierFails"}})})
-	su = append(su, unit{"ctutil.VerifySCTWithVerifier", handlerKernel(cu, "VerifySCTWithVerifier", "ctutilVerifyWithVerifier", "(svNil leafFails verifyFails : Bool)", "Bool", "", "false",
+			Repl: map[string]string{`fmt.Errorf("error creating signature verifier: %s", err)`: "true"}, CallRepl: map[string]string{"VerifySCTWithVerifier": "withVerifierFails"}})})
+	su = append(su, unit{"ctutil.VerifySCTWithVerifier", hkc(cu, "VerifySCTWithVerifier", "ctutilVerifyWithVerifier", "(svNil leafFails verifyFails : Bool)", "Bool", "", "false",
 		Spec{Kind: "u64", Lazy: true, ErrCalls: map[string]string{"createLeaf": "leafFails"},
-			Repl: map[string]string{"sv == nil": "svNil", `errors.New("ct.SignatureVerifier is nil")`: "true", "err": "true", "sv.VerifySCTSignature(*sct, ct.LogEntry{Leaf: *leaf})": "verifyFails"}})})
-	su = append(su, unit{"tls.VerifySignature", handlerKernelExpand(tsig, "VerifySignature", "tlsVerifySignature",
-		"(hashFails : Bool) (alg : Int) (keyMismatch rsaBad unmarshalFails rNonPos sNonPos exactBad dsaOk ecdsaOk : Bool)", "ErrKind", "", "ErrKind.ok",
-		Spec{Kind: "i64", Lazy: true, Ret: "errkind", Ignore: []string{"log."}, IgnoreLHS: []string{"rsaKey", "dsaKey", "ecdsaKey", "ok"},
-			ErrCalls: map[string]string{"generateHash": "hashFails", "asn1.Unmarshal": "unmarshalFails"},
-			InitCond: map[string]string{"err := rsa.VerifyPKCS1v15(rsaKey, hashType, hash, sig.Signature) ; err != nil": "rsaBad",
-				"err := checkExactDER(sig.Signature, rest, dsaSig) ; err != nil": "exactBad", "err := checkExactDER(sig.Signature, rest, ecdsaSig) ; err != nil": "exactBad"},
-			Vars: map[string]string{"sig.Algorithm.Signature": "alg"},
-			Repl: map[string]string{"RSA": "(1 : Int)", "DSA": "(2 : Int)", "ECDSA": "(3 : Int)", "!ok": "keyMismatch",
-				"dsaSig.R.Sign() <= 0": "rNonPos", "dsaSig.S.Sign() <= 0": "sNonPos", "ecdsaSig.R.Sign() <= 0": "rNonPos", "ecdsaSig.S.Sign() <= 0": "sNonPos",
-				"dsa.Verify(dsaKey, hash, dsaSig.R, dsaSig.S)": "dsaOk", "ecdsa.Verify(ecdsaKey, hash, ecdsaSig.R, ecdsaSig.S)": "ecdsaOk",
-				"len(rest) != 0": "false"}})})
+			Repl: map[string]string{"sv == nil": "svNil", `errors.New("ct.SignatureVerifier is nil")`: "true", "err": "true"}, CallRepl: map[string]string{"sv.VerifySCTSignature": "verifyFails"}})})
+	su = append(su, unit{"tls.VerifySignature", func() string {
+		repl, ignLHS := sigRoles(tsig, "VerifySignature", map[string]string{"RSA": "(1 : Int)", "DSA": "(2 : Int)", "ECDSA": "(3 : Int)"})
+		return hkc(tsig, "VerifySignature", "tlsVerifySignature",
+			"(hashFails : Bool) (alg : Int) (keyMismatch rsaBad unmarshalFails rNonPos sNonPos exactBad dsaOk ecdsaOk : Bool)", "ErrKind", "", "ErrKind.ok",
+			Spec{Kind: "i64", Lazy: true, Ret: "errkind", Ignore: []string{"log."}, IgnoreLHS: ignLHS,
+				ErrCalls:       map[string]string{"generateHash": "hashFails", "asn1.Unmarshal": "unmarshalFails"},
+				InitCondByCall: map[string]string{".VerifyPKCS1v15": "rsaBad", "checkExactDER": "exactBad"},
+				CallRepl:       map[string]string{"dsa.Verify": "dsaOk", "ecdsa.Verify": "ecdsaOk"},
+				Vars:           map[string]string{"sig.Algorithm.Signature": "alg"},
+				Repl:           repl})()
+	}})
 	register(genFile{name: "SigTie", imports: []string{"CTV.Basic.I64", "CTV.Basic.ErrKind"}, units: su})
 	register(genFile{name: "ClientTie", imports: []string{"CTV.Basic.I64", "CTV.Basic.ErrKind"}, units: us})
-}
-
-// handlerKernelExpand: handlerKernel after splicing same-file `(T, error)` helpers (expandHelpers) into the function's
-// top-level statements and into the clauses of its top-level switch, so that a refactoring that moves a run of checks into
-// a helper gives the same kernel.  The `if err != nil { return err }` that follows a spliced helper is dropped: every error
-// return of the helper is already a return of the enclosing function.
-func handlerKernelExpand(rel, fn, leanName, params, resultTy, prelude, tail string, sp Spec) func() string {
-	return func() string {
-		fd := mustFunc(rel, fn)
-		t := &tr{sp: sp, file: parseFile(rp(rel))}
-		t.prepare(fd)
-		body := t.block(expandDeep(rel, fd.Body.List), tail, "  ")
-		return fmt.Sprintf("/-- generated from %s func %s (whole body) -/\ndef %s %s : %s :=\n  %s%s\n", rel, fn, leanName, params, resultTy, prelude, body)
-	}
-}
-
-func expandDeep(rel string, list []ast.Stmt) []ast.Stmt {
-	var out []ast.Stmt
-	for i := 0; i < len(list); i++ {
-		s := list[i]
-		if sw, ok := s.(*ast.SwitchStmt); ok {
-			ns := *sw
-			nb := *sw.Body
-			nb.List = nil
-			for _, c := range sw.Body.List {
-				cc := *(c.(*ast.CaseClause))
-				cc.Body = expandDeep(rel, cc.Body)
-				nb.List = append(nb.List, &cc)
-			}
-			ns.Body = &nb
-			out = append(out, &ns)
-			continue
-		}
-		ex := expandHelpers(rel, []ast.Stmt{s})
-		if len(ex) == 1 && ex[0] == s {
-			out = append(out, s)
-			continue
-		}
-		out = append(out, ex...)
-		if i+1 < len(list) && nospace(src(list[i+1])) == "iferr!=nil{returnerr}" {
-			i++
-		}
-	}
-	return out
 }
 
 // restRepl adds, for the variable that receives the unconsumed octets of the function's tls.Unmarshal call (whatever it is
@@ -180,7 +137,7 @@ func restRepl(rel, fn string, m map[string]string) map[string]string {
 		for k, v := range m {
 			out[k] = v
 		}
-		fd := mustFunc(rel, fn)
+		fd := canonFunc(rel, fn, tieKeep...)
 		ast.Inspect(fd.Body, func(n ast.Node) bool {
 			a, ok := n.(*ast.AssignStmt)
 			if !ok || len(a.Lhs) != 2 || len(a.Rhs) != 1 {
@@ -195,4 +152,104 @@ func restRepl(rel, fn string, m map[string]string) map[string]string {
 		})
 		return out
 	}
+}
+
+// tieKeep: same-file callees the tie units treat as one fact each (everything else that is called in the same file is inlined
+// by the canonicaliser of k_canon.go before the statements are translated).
+var tieKeep = []string{"logIDForKey", "checkLogID", "VerifySTHSignature", "VerifySCTSignature", "getRawEntries", "generateHash", "checkExactDER",
+	"VerifySCTWithVerifier", "createLeaf", "GetAndParse", "PostAndParse", "PostAndParseWithRetry", "addChainWithRetry"}
+
+// hkc: handlerKernel on the canonical body.
+func hkc(rel, fn, leanName, params, resultTy, prelude, tail string, sp Spec) func() string {
+	return func() string {
+		fd := canonFunc(rel, fn, tieKeep...)
+		t := &tr{sp: sp, file: parseFile(rp(rel))}
+		t.prepare(fd)
+		body := dropDeadLets(t.block(fd.Body.List, tail, "  "))
+		return fmt.Sprintf("/-- generated from %s func %s (whole body) -/\ndef %s %s : %s :=\n  %s%s\n", rel, fn, leanName, params, resultTy, prelude, body)
+	}
+}
+
+var reZeroLet = regexp.MustCompile(`^(\s*)let (\w+_) := \(0 : Int\)$`)
+
+// dropDeadLets removes `let x_ := (0 : Int)` lines (what a `var x T` or an opaque result becomes) whose name is not read again.
+func dropDeadLets(body string) string {
+	lines := strings.Split(body, "\n")
+	var out []string
+	trimNext := false
+	for _, l := range lines {
+		if m := reZeroLet.FindStringSubmatch(l); m != nil {
+			if len(regexp.MustCompile(`\b`+m[2]+`\b`).FindAllString(body, -1)) == len(regexp.MustCompile(`(?m)^\s*let `+m[2]+` := \(0 : Int\)$`).FindAllString(body, -1)) {
+				if len(out) == 0 {
+					trimNext = true
+				}
+				continue
+			}
+		}
+		if trimNext && len(out) == 0 {
+			l = strings.TrimPrefix(l, "  ")
+		}
+		out = append(out, l)
+	}
+	return strings.Join(out, "\n")
+}
+
+// lvc: loopVerdictKernel (range loops only) on the canonical body.
+func lvc(rel, fn, marker, canonVal, leanName, params, resultTy, fall string, sp Spec) func() string {
+	return func() string {
+		fd := canonFunc(rel, fn, tieKeep...)
+		t := &tr{sp: sp, file: parseFile(rp(rel))}
+		t.prepare(fd)
+		var loops []*ast.RangeStmt
+		ast.Inspect(fd.Body, func(n ast.Node) bool {
+			if r, ok := n.(*ast.RangeStmt); ok && strings.Contains(norm(src(r.X)), norm(marker)) {
+				loops = append(loops, r)
+			}
+			return true
+		})
+		if len(loops) != 1 {
+			panic(bail{fmt.Sprintf("%s: expected exactly one range loop over %q in %s, found %d", rel, marker, fn, len(loops))})
+		}
+		r := loops[0]
+		return fmt.Sprintf("/-- generated from %s func %s: body of the loop over `%s`, as a verdict per element -/\ndef %s %s : %s :=\n  %s\n",
+			rel, fn, src(r.X), leanName, params, resultTy, sp.Prelude+t.block(r.Body.List, fall, "  "))
+	}
+}
+
+// sigRoles: the Repl / IgnoreLHS entries of tls.VerifySignature that depend on what the locals are called: the variables that
+// receive a type assertion (and its comma-ok), the `dsaSig` variables filled by asn1.Unmarshal, the rest it returns.
+func sigRoles(rel, fn string, repl map[string]string) (map[string]string, []string) {
+	out := map[string]string{}
+	for k, v := range repl {
+		out[k] = v
+	}
+	var ign []string
+	fd := canonFunc(rel, fn, tieKeep...)
+	ast.Inspect(fd.Body, func(n ast.Node) bool {
+		switch x := n.(type) {
+		case *ast.AssignStmt:
+			if len(x.Rhs) == 1 && len(x.Lhs) == 2 {
+				if _, ok := x.Rhs[0].(*ast.TypeAssertExpr); ok {
+					ign = append(ign, src(x.Lhs[0]), src(x.Lhs[1]))
+					out["!"+src(x.Lhs[1])] = "keyMismatch"
+				}
+				if c, ok := x.Rhs[0].(*ast.CallExpr); ok && nospace(src(c.Fun)) == "asn1.Unmarshal" {
+					out["len("+src(x.Lhs[0])+") != 0"] = "false"
+				}
+			}
+		case *ast.DeclStmt:
+			if gd, ok := x.Decl.(*ast.GenDecl); ok {
+				for _, sp := range gd.Specs {
+					if vs, ok := sp.(*ast.ValueSpec); ok && vs.Type != nil && src(vs.Type) == "dsaSig" {
+						for _, nm := range vs.Names {
+							out[nm.Name+".R.Sign() <= 0"] = "rNonPos"
+							out[nm.Name+".S.Sign() <= 0"] = "sNonPos"
+						}
+					}
+				}
+			}
+		}
+		return true
+	})
+	return out, ign
 }
